@@ -245,6 +245,30 @@ def run_case(case):
                     R.bad("average-between-parts", "C20:%s-outside-min-max-of-parts[outputs]" % nm, {"pop": p, "outputs": [a, b], "value": v[:4].tolist(), "parts": [pa[:4].tolist(), pb[:4].tolist()]})
                 else:
                     R.ok("average-between-parts")
+    # ... and for transition parameters, whose weights are the sizes of the compartments they act on (not their own values):
+    # where those compartments are all empty the weighted average is undefined (NaN), never a number outside the parts
+    linkrates = [r for r in rates if any(r in [x.strip() for x in str(pn).split(",")] for a_, b_, pn in spec["trans"] if a_ in ords)]
+    if len(linkrates) >= 2:
+        ra, rb = linkrates[0], linkrates[1]
+        for p in pops:
+            try:
+                pa = series_of(call([ra], [p]), p, ra)
+                pb = series_of(call([rb], [p]), p, rb)
+                pw = series_of(call([{"s": [ra, rb]}], [p], output_aggregation="weighted"), p, "s")
+            except Exception as e:
+                R.count("weighted_rate_call_failed[%s]" % type(e).__name__)
+                continue
+            if pa is None or pb is None or pw is None:
+                continue
+            R.count("weighted_averages_of_transition_parameters")
+            R.count("weighted_average_points_with_all_weights_zero", int(np.sum(~np.isfinite(pw))))
+            lo, hi = np.minimum(pa, pb), np.maximum(pa, pb)
+            fin = np.isfinite(pw) & np.isfinite(lo) & np.isfinite(hi)
+            if np.any(pw[fin] < lo[fin] - 1e-9 * np.maximum(1, np.abs(lo[fin]))) or np.any(pw[fin] > hi[fin] + 1e-9 * np.maximum(1, np.abs(hi[fin]))):
+                i_ = int(np.argmax(fin & ((pw < lo - 1e-9 * np.maximum(1, np.abs(lo))) | (pw > hi + 1e-9 * np.maximum(1, np.abs(hi))))))
+                R.bad("average-between-parts", "C20:weighted-outside-min-max-of-parts[transition-parameters]", {"pop": p, "outputs": [ra, rb], "index": i_, "value": float(pw[i_]), "parts": [float(pa[i_]), float(pb[i_])]})
+            else:
+                R.ok("average-between-parts")
     for q in [ords[0], "alive"] + flows[:1]:
         try:
             per = [series_of(call([q], [p]), p, q) for p in pops]
